@@ -276,7 +276,7 @@ fn gparams_coq(w: &mut World, kind: Kind, factory: &Addr) -> (String, Value) {
 }
 
 pub struct Outcome {
-    pub coq: String,
+    pub coq: Vec<String>,
     pub ok: bool,
     pub violations: Vec<(String, String)>,
     pub hist_key: String,
@@ -557,7 +557,51 @@ pub fn run_case(c: &Case) -> Outcome {
         coq_list(&wiring.iter().map(|x| x.to_string()).collect::<Vec<_>>()),
         bal1
     );
-    Outcome { coq, ok, violations: viol, hist_key: format!("{}:{}", hist_key, if ok { "ok" } else { "err" }) }
+    let mut coqs = vec![format!("(CCreate {})", coq)];
+    // ---- a later UpdatePerAddressLimit on the created minter is held to the same bounds ----
+    if ok && kind != Kind::Base && minter_exists {
+        let ma = Addr::unchecked(&new_minter);
+        let e = if kind == Kind::TokenMerge { praw.clone() } else { praw["extension"].clone() };
+        let maxp = e["max_per_address_limit"].as_u64().unwrap();
+        let n = r.num_tokens.unwrap_or(0) as u64;
+        let cap = if n < 100 { 3 } else { (n * 3 + 99) / 100 };
+        let three_pct_applies = kind == Kind::TokenMerge || kind == Kind::Vending && !flex;
+        let q_pal = |w: &World| -> u64 {
+            w.app.wrap().query_wasm_smart::<Value>(ma.clone(), &json!({"config": {}})).unwrap()["per_address_limit"].as_u64().unwrap()
+        };
+        let mut probes: Vec<(&str, u64, bool)> = vec![(PAYER, 1, false), (CREATOR, 1, true)];
+        for l in [0u64, 1, 2, 3, 4, cap.saturating_sub(1), cap, cap + 1, maxp.saturating_sub(1), maxp, maxp + 1] {
+            probes.push((CREATOR, l, false));
+        }
+        for (who, l, with_funds) in probes {
+            let before = q_pal(&w);
+            let funds = if with_funds { vec![coin(1, NATIVE)] } else { vec![] };
+            let res = chain::exec(&mut w.app, who, &ma, &json!({"update_per_address_limit": {"per_address_limit": l}}), &funds);
+            let after = q_pal(&w);
+            let pok = res.is_ok();
+            if pok {
+                if who != CREATOR {
+                    viol.push(("C08:update-limit-by-non-admin".into(), format!("{}: UpdatePerAddressLimit({}) by {} succeeded", hist_key, l, who)));
+                }
+                if l < 1 || l > maxp {
+                    viol.push(("C08:update-limit-out-of-bounds".into(), format!("{}: UpdatePerAddressLimit({}) accepted, max {}", hist_key, l, maxp)));
+                }
+                if three_pct_applies && l > cap {
+                    viol.push(("C08:update-limit-three-percent-rule".into(), format!("{}: UpdatePerAddressLimit({}) accepted for {} tokens (cap {})", hist_key, l, n, cap)));
+                }
+                if after != l {
+                    viol.push(("C08:update-limit-not-applied".into(), format!("{}: UpdatePerAddressLimit({}) ok but limit is {}", hist_key, l, after)));
+                }
+            } else if after != before {
+                viol.push(("C08:rejected-update-changed-limit".into(), format!("{}: rejected UpdatePerAddressLimit({}) changed the limit {} -> {}", hist_key, l, before, after)));
+            }
+            coqs.push(format!(
+                "(CUpdatePal {} {} {} {} {} {} {} {} {} {})",
+                kind_coq, coq_bool(flex), coq_bool(who == CREATOR), coq_bool(!with_funds), l, n, maxp, coq_bool(pok), after, before
+            ));
+        }
+    }
+    Outcome { coq: coqs, ok, violations: viol, hist_key: format!("{}:{}", hist_key, if ok { "ok" } else { "err" }) }
 }
 
 fn good_req(kind: Kind, p: &Params) -> Req {
@@ -770,11 +814,12 @@ pub fn run(a: &Args) {
         if rep.samples.len() < 3 && i % 211 == 3 {
             rep.samples.push(serde_json::json!({"case": serde_json::to_value(c).unwrap_or(Value::Null), "ok": o.ok}));
         }
-        coq_cases.push(o.coq);
+        rep.evaluations += o.coq.len() as u64 - 1;
+        coq_cases.extend(o.coq);
     }
     rep.distinct_nontrivial = distinct.len() as u64;
     rep.rule = "CreateMinter on base / vending (x6 minter codes) / open-edition (x3) / token-merge factories: every request parameter at bound-1/bound/bound+1 against default parameters and after sudo updates, freeze/unfreeze, non-native fee and price denoms; payments none/short/exact/over/wrong denom/two coins; plus seeded random requests. Non-trivial = distinct request that created a minter.".into();
-    out.write_cases("C08", "From LP Require Import Num Pay Sg1 Bank MinterVending Factory C08Corr.", "c08_case", "c08_check", &coq_cases, 6, &mut rep);
+    out.write_cases("C08", "From LP Require Import Num Pay Sg1 Bank MinterVending Factory C08Corr.", "c08_any", "c08_any_check", &coq_cases, 6, &mut rep);
     out.finish(&rep);
     println!("C08 harness: {} cases, {} monitor violations", rep.evaluations, nviol);
 }
